@@ -37,6 +37,7 @@ Definition run_env : env txf pf (option N) unit balances_t balances_t N unit :=
      runtime_balances := fun ib => Some ib;
      rb_entries := fun rb => rb;
      block_height := fun s => s;
+     clear_last_state := fun d => d;
      ib_default := []; tx_default := {| f_id := []; f_size := 0; f_bytes := []; f_gas := None; f_script_off := None; f_contracts := []; f_io := [] |};
      rb_default := []; debugger_default := tt; verifier_default := tt |}.
 
